@@ -85,7 +85,7 @@ type opaque struct {
 // symbolic Bool if a symbolic scalar takes part in the comparison.
 func eqv(t types.Type, x, y value) value {
 	switch x := x.(type) {
-	case sym, symstr:
+	case sym, symstr, symf:
 		return symBinopEq(x, y)
 	case bool:
 		if _, ok := y.(sym); ok {
@@ -150,6 +150,9 @@ func eqv(t types.Type, x, y value) value {
 	case float32:
 		return x == y.(float32)
 	case float64:
+		if _, ok := y.(symf); ok {
+			return symBinopEq(x, y)
+		}
 		return x == y.(float64)
 	case complex64:
 		return x == y.(complex64)
@@ -161,13 +164,22 @@ func eqv(t types.Type, x, y value) value {
 		}
 		return x == y.(string)
 	case *value:
-		return x == y.(*value)
+		if yp, ok := y.(*value); ok {
+			return x == yp
+		}
+		if yu, ok := y.(unsafe.Pointer); ok {
+			return x == nil && yu == nil
+		}
+		return false
 	case *chanv:
 		return x == y.(*chanv)
 	case *opaque:
 		yo, ok := y.(*opaque)
 		return ok && x == yo
 	case unsafe.Pointer:
+		if yp, ok := y.(*value); ok {
+			return x == nil && yp == nil
+		}
 		return x == y.(unsafe.Pointer)
 	case structure:
 		xs, ys := x, y.(structure)
